@@ -256,7 +256,7 @@ pub fn parse_complete<F: LemireFloat, const FORMAT: u128>(
         {
             return Err(Error::Empty(byte.cursor()));
         } else {
-            return Ok(F::ZERO);
+            return Ok(if is_negative { -F::ZERO } else { F::ZERO });
         }
     }
 
@@ -299,7 +299,7 @@ pub fn fast_path_complete<F: LemireFloat, const FORMAT: u128>(
         {
             return Err(Error::Empty(byte.cursor()));
         } else {
-            return Ok(F::ZERO);
+            return Ok(if is_negative { -F::ZERO } else { F::ZERO });
         }
     }
 
@@ -324,7 +324,7 @@ pub fn parse_partial<F: LemireFloat, const FORMAT: u128>(
         {
             return Err(Error::Empty(byte.cursor()));
         } else {
-            return Ok((F::ZERO, byte.cursor()));
+            return Ok((if is_negative { -F::ZERO } else { F::ZERO }, byte.cursor()));
         }
     }
 
@@ -373,7 +373,7 @@ pub fn fast_path_partial<F: LemireFloat, const FORMAT: u128>(
         {
             return Err(Error::Empty(byte.cursor()));
         } else {
-            return Ok((F::ZERO, byte.cursor()));
+            return Ok((if is_negative { -F::ZERO } else { F::ZERO }, byte.cursor()));
         }
     }
 
